@@ -146,9 +146,9 @@ def run(res, tier, seed, search):
     start = (seed * combos_n) % len(COMBOS)
     # combos with their own code paths (normalising dot; cosine's zero-row branches) run on every seed
     # (+ a sparse metric that takes the feature count: the n_features glue of the constructor)
-    always = [("dot", "dense32"), ("cosine", "dense32"), ("hamming", "csr")]
+    always = [("dot", "dense32"), ("cosine", "dense32"), ("hamming", "csr"), ("l2", "csr")]      # (+ an alias name on the sparse side)
     rot = [COMBOS[(start + i) % len(COMBOS)] for i in range(combos_n)]
-    for metric, kind in always + [c for c in rot if c not in always][: max(combos_n - 2, 1)]:
+    for metric, kind in always + [c for c in rot if c not in always][: max(combos_n - 3, 1)]:
         for r in range(reps if (metric, kind) not in always or tier != "quick" else 2):
             api_case(res, rng, metric, kind)
     numba.set_num_threads(numba.config.NUMBA_NUM_THREADS)
